@@ -7,6 +7,7 @@ package fedorders
 
 import (
 	"fmt"
+	"runtime"
 	"sort"
 	"sync"
 	"testing/synctest"
@@ -29,6 +30,34 @@ type Exec struct {
 	Obs      any
 }
 
+// cur is the execution in progress (RunOne is not re-entrant).
+var cur struct {
+	mu      *sync.Mutex
+	waiting *[]*gated
+}
+
+// ReleaseParked is called from INSIDE the execution (a slow writer's Flush): it
+// answers every request that is parked right now, all at once, and then yields
+// the processor the given number of times so that the released work runs as far
+// as it can while the caller is still inside its call. What the released work
+// can do in that window is what the caller's locking permits.
+func ReleaseParked(yields int) int {
+	if cur.mu == nil {
+		return 0
+	}
+	cur.mu.Lock()
+	w := append([]*gated(nil), (*cur.waiting)...)
+	*cur.waiting = nil
+	cur.mu.Unlock()
+	for _, g := range w {
+		close(g.ch)
+	}
+	for i := 0; i < yields; i++ {
+		runtime.Gosched()
+	}
+	return len(w)
+}
+
 // RunOne executes run() with the gate installed, releasing parked requests as
 // prefix dictates (then always the first in canonical order). Must be called
 // inside a synctest bubble.
@@ -43,7 +72,8 @@ func RunOne(sim *fedlab.Sim, prefix []int, run func() any) *Exec {
 		mu.Unlock()
 		<-g.ch
 	}
-	defer func() { sim.Gate = nil }()
+	cur.mu, cur.waiting = &mu, &waiting
+	defer func() { sim.Gate = nil; cur.mu, cur.waiting = nil, nil }()
 	done := make(chan struct{})
 	go func() {
 		defer close(done)
